@@ -331,6 +331,32 @@ def while_to_for(modules, known, rep):
 
 
 # ---------------------------------------------------------------------------------------------- N14 unroll constant loops
+def _read_before_store(stmts, names) -> bool:
+    """some name of `names` is read in `stmts` before anything there assigns it (source order; a loop that assigns it in its header
+    counts as the assignment)"""
+    first = {}
+
+    def rec(n):
+        if isinstance(n, ast.Name) and n.id in names and n.id not in first:
+            first[n.id] = isinstance(n.ctx, ast.Load)
+        if isinstance(n, (ast.For, ast.AsyncFor)):
+            rec(n.iter)
+            rec(n.target)
+            for b in n.body + n.orelse:
+                rec(b)
+            return
+        if isinstance(n, ast.Assign):
+            rec(n.value)
+            for t in n.targets:
+                rec(t)
+            return
+        for c in ast.iter_child_nodes(n):
+            rec(c)
+    for s_ in stmts:
+        rec(s_)
+    return any(first.values())
+
+
 def unroll_constant_loops(modules, known, rep):
     """fresh `for x in (A, B, C): BODY` over a literal sequence of constants / enum members, BODY without break /
     continue / nested loop / store to x, x unused afterwards  ==  BODY[x:=A]; BODY[x:=B]; BODY[x:=C]."""
@@ -375,13 +401,28 @@ def unroll_constant_loops(modules, known, rep):
                     # members or locals that BODY does not assign)  ==  BODY[row 1]; BODY[row 2]
                     stored_ = {n.id for b in st.body for n in ast.walk(b) if isinstance(n, ast.Name) and isinstance(n.ctx, (ast.Store, ast.Del))}
                     okr = lambda e: okc(e) or (isinstance(e, ast.Name) and e.id not in stored_)  # noqa: E731
-                    if len(names_) == len(st.target.elts) and 0 < len(rows) <= 16 and all(isinstance(r, ast.Tuple) and len(r.elts) == len(names_) and all(okr(e) for e in r.elts) for r in rows) \
+                    quiet_ = lambda e: not any(isinstance(y_, (ast.Await, ast.NamedExpr, ast.Yield, ast.YieldFrom, ast.Lambda)) for y_ in ast.walk(e))  # noqa: E731
+                    if len(names_) == len(st.target.elts) and 0 < len(rows) <= 16 and all(isinstance(r, ast.Tuple) and len(r.elts) == len(names_) and all(okr(e) or quiet_(e) for e in r.elts) for r in rows) \
                             and not any(isinstance(n, (ast.Break, ast.Continue, ast.For, ast.While, ast.AsyncFor)) for b in st.body for n in ast.walk(b)) \
                             and not (stored_ & set(names_)) \
-                            and not any(isinstance(n, ast.Name) and n.id in names_ for s2 in stmts[i:] for n in ast.walk(s2)):
+                            and not _read_before_store(stmts[i:], names_):
                         new_ = []
-                        for r in rows:
-                            mp = dict(zip(names_, r.elts))
+                        # row elements that are expressions are evaluated once, in row order, before the first iteration: kept in locals
+                        taken_ = {n.id for n in ast.walk(fn) if isinstance(n, ast.Name)}
+                        hoisted = {}
+                        for ri, r in enumerate(rows):
+                            for ci, e in enumerate(r.elts):
+                                if not okr(e):
+                                    nm_ = f"row{ri}__{names_[ci]}"
+                                    while nm_ in taken_:
+                                        nm_ += "_"
+                                    taken_.add(nm_)
+                                    hoisted[(ri, ci)] = nm_
+                                    a_ = ast.copy_location(ast.Assign([ast.Name(nm_, ast.Store())], e, lineno=st.lineno), st)
+                                    ast.fix_missing_locations(a_)
+                                    new_.append(a_)
+                        for ri, r in enumerate(rows):
+                            mp = {nm2: (ast.Name(hoisted[(ri, ci)], ast.Load()) if (ri, ci) in hoisted else r.elts[ci]) for ci, nm2 in enumerate(names_)}
 
                             class S3(ast.NodeTransformer):
                                 def visit_Name(self, nd):
@@ -727,8 +768,9 @@ def thread_constant_flags(modules, known, rep):
 
 # ---------------------------------------------------------------------------------------------- N25 scope classes
 def _scope_class(c: ast.ClassDef):
-    """(params, {attr: param}, exit body, is_async) of a class that is nothing but a try/finally in object form: `__init__` stores
-    its parameters, `__enter__` returns self, `__exit__` runs statements and does not suppress the exception; else None."""
+    """A class that is nothing but a try/finally in object form: `__init__` computes attributes from its parameters (and from
+    attributes it has set before), `__enter__` runs statements and returns a value, `__exit__` runs statements and does not suppress
+    the exception; `self` is only ever read through those attributes.  Returns a dict or None."""
     if c.bases and [ast.unparse(b) for b in c.bases] != ["object"]:
         return None
     if c.decorator_list or c.keywords:
@@ -753,26 +795,61 @@ def _scope_class(c: ast.ClassDef):
     if isinstance(init, ast.AsyncFunctionDef) or init.args.vararg or init.args.kwarg or init.args.kwonlyargs or init.args.defaults:
         return None
     params = [a.arg for a in init.args.args]
-    if not params:
+    if not params or any(m.decorator_list for m in (init, ent, ex)):
         return None
-    selfn = params[0]
-    attrs = {}
+    for m in (init, ent, ex):
+        if any(isinstance(x, FUNC + (ast.Lambda, ast.Yield, ast.YieldFrom, ast.Global, ast.Nonlocal)) and x is not m for x in ast.walk(m)):
+            return None
 
     def strip_doc(b):
         return b[1:] if b and isinstance(b[0], ast.Expr) and isinstance(b[0].value, ast.Constant) and isinstance(b[0].value.value, str) else b
+    attrs = []   # (attr, value expr over init's parameters and self.<earlier attr>)
+    selfn = params[0]
     for st in strip_doc(init.body):
-        if not (isinstance(st, (ast.Assign, ast.AnnAssign)) and isinstance(st.value, ast.Name) and st.value.id in params[1:]):
+        if isinstance(st, ast.Pass):
+            continue
+        if not (isinstance(st, (ast.Assign, ast.AnnAssign)) and st.value is not None):
             return None
-        t = st.targets[0] if isinstance(st, ast.Assign) else st.target
         if isinstance(st, ast.Assign) and len(st.targets) != 1:
             return None
+        t = st.targets[0] if isinstance(st, ast.Assign) else st.target
         if not (isinstance(t, ast.Attribute) and isinstance(t.value, ast.Name) and t.value.id == selfn):
             return None
-        attrs[t.attr] = st.value.id
-    eb = strip_doc(ent.body)
-    if not (len(eb) == 1 and ((isinstance(eb[0], ast.Return) and (eb[0].value is None or (isinstance(eb[0].value, ast.Name) and eb[0].value.id == ent.args.args[0].arg)
-                                                                        or (isinstance(eb[0].value, ast.Constant) and eb[0].value.value is None)))
-                              or isinstance(eb[0], ast.Pass))):
+        if t.attr in [a_ for a_, _ in attrs]:
+            return None
+        for x in ast.walk(st.value):
+            if isinstance(x, ast.Name) and x.id == selfn:
+                par = next((y for y in ast.walk(st.value) if isinstance(y, ast.Attribute) and y.value is x), None)
+                if par is None or par.attr not in [a_ for a_, _ in attrs]:
+                    return None
+            if isinstance(x, (ast.Await, ast.NamedExpr)):
+                return None
+        attrs.append((t.attr, st.value))
+    names = [a_ for a_, _ in attrs]
+
+    def only_attr_reads(stmts, me, banned=()):
+        for st in stmts:
+            for x in ast.walk(st):
+                if isinstance(x, ast.Name) and x.id in banned:
+                    return False
+                if isinstance(x, ast.Name) and x.id == me:
+                    par = next((y for y in ast.walk(st) if isinstance(y, ast.Attribute) and y.value is x), None)
+                    if par is None or par.attr not in names or isinstance(par.ctx, ast.Del):
+                        return False  # (a store becomes an assignment of the attribute's local)
+        return True
+    eb = list(strip_doc(ent.body))
+    if len(ent.args.args) != 1:
+        return None
+    eself = ent.args.args[0].arg
+    eret = None
+    if eb and isinstance(eb[-1], ast.Return):
+        eret = eb[-1].value
+        eb = eb[:-1]
+    eb = [x for x in eb if not isinstance(x, ast.Pass)]
+    if any(isinstance(x, ast.Return) for st in eb for x in ast.walk(st)):
+        return None
+    ret_self = isinstance(eret, ast.Name) and eret.id == eself
+    if not only_attr_reads(eb, eself) or (eret is not None and not ret_self and not only_attr_reads([ast.Expr(eret)], eself)):
         return None
     xb = list(strip_doc(ex.body))
     if len(ex.args.args) != 4:
@@ -784,22 +861,26 @@ def _scope_class(c: ast.ClassDef):
         if not (v is None or (isinstance(v, ast.Constant) and v.value in (None, False))):
             return None
         xb = xb[:-1]
-    if any(isinstance(x, (ast.Return, ast.Yield, ast.YieldFrom)) or (isinstance(x, ast.Name) and x.id in excn) for st in xb for x in ast.walk(st)):
+    xb = [x for x in xb if not isinstance(x, ast.Pass)]
+    if any(isinstance(x, ast.Return) for st in xb for x in ast.walk(st)):
         return None
-    # self is only read through the stored attributes
-    for st in xb:
-        for x in ast.walk(st):
-            if isinstance(x, ast.Name) and x.id == xself:
-                par = next((y for y in ast.walk(st) if isinstance(y, ast.Attribute) and y.value is x), None)
-                if par is None or par.attr not in attrs or not isinstance(par.ctx, ast.Load):
-                    return None
-    return params[1:], attrs, xb, is_async, xself
+    if not only_attr_reads(xb, xself, banned=excn):
+        return None
+    return {"params": params[1:], "init_self": selfn, "attrs": attrs, "enter": eb, "enter_self": eself, "enter_ret": eret, "ret_self": ret_self,
+            "exit": xb, "exit_self": xself, "async": is_async}
 
 
 def expand_scope_classes(modules, known, rep):
-    """`with C(a, b): BODY` over a NEW class C that only packages a `finally` block (see _scope_class) is
-    `try: BODY finally: <C.__exit__ body with self.<attr> := the argument>` - the arguments are plain names / attributes that BODY
-    does not assign.  The class is dropped when nothing else mentions it."""
+    """`with C(a, b) as v: BODY` (or `o = C(a, b)` ... `with o as v:`) over a NEW class C that only packages a `finally` block (see
+    _scope_class) is
+
+        <attr locals> = <C.__init__ values>        # where the object was constructed
+        <C.__enter__ statements>; v = <its result>
+        try: BODY
+        finally: <C.__exit__ statements>
+
+    with `self.<attr>` read as the attr local; the arguments are plain names / attributes that nothing assigns between the construction
+    and the end of the `with`.  The class is dropped when nothing else mentions it."""
     for rel, mod in modules.items():
         kf = known["functions"]
         cands = {}
@@ -810,6 +891,9 @@ def expand_scope_classes(modules, known, rep):
                     cands[c.name] = (c, sc)
         if not cands:
             continue
+
+        def simple(e):
+            return isinstance(e, ast.Name) or (isinstance(e, ast.Attribute) and simple(e.value))
         for rel2, scn, fn in list(all_functions({rel: mod})):
             if scn in cands:
                 continue
@@ -818,48 +902,102 @@ def expand_scope_classes(modules, known, rep):
                 changed = False
                 for owner, fld, stmts in list(_blocks(fn)):
                     for i, st in enumerate(stmts):
-                        if not isinstance(st, (ast.With, ast.AsyncWith)) or len(st.items) != 1 or st.items[0].optional_vars is not None:
+                        if not isinstance(st, (ast.With, ast.AsyncWith)) or len(st.items) != 1:
                             continue
                         ce = st.items[0].context_expr
-                        if not (isinstance(ce, ast.Call) and isinstance(ce.func, ast.Name) and ce.func.id in cands and not ce.keywords):
+                        asv = st.items[0].optional_vars
+                        if asv is not None and not isinstance(asv, ast.Name):
                             continue
-                        c, (params, attrs, xb, is_async, xself) = cands[ce.func.id]
-                        if is_async != isinstance(st, ast.AsyncWith) or len(ce.args) != len(params):
+                        ctor_at = None   # index in stmts of `o = C(...)`
+                        if isinstance(ce, ast.Name):
+                            defs = [(k, s2) for k, s2 in enumerate(stmts[:i]) if isinstance(s2, ast.Assign) and len(s2.targets) == 1 and isinstance(s2.targets[0], ast.Name)
+                                    and s2.targets[0].id == ce.id]
+                            uses = [n for n in ast.walk(fn) if isinstance(n, ast.Name) and n.id == ce.id]
+                            if len(defs) != 1 or len(uses) != 2:
+                                continue
+                            ctor_at, cst = defs[0]
+                            call = cst.value
+                        else:
+                            call = ce
+                        if not (isinstance(call, ast.Call) and isinstance(call.func, ast.Name) and call.func.id in cands and not call.keywords):
                             continue
-
-                        def simple(e):
-                            return isinstance(e, ast.Name) or (isinstance(e, ast.Attribute) and simple(e.value))
-                        if not all(simple(a) for a in ce.args):
+                        c, d = cands[call.func.id]
+                        if d["async"] != isinstance(st, ast.AsyncWith) or len(call.args) != len(d["params"]):
                             continue
+                        if not all(simple(a) for a in call.args):
+                            continue
+                        if asv is not None and d["enter_ret"] is None:
+                            continue
+                        if asv is not None and d["ret_self"]:
+                            continue  # the object itself escapes into the body
                         roots = set()
-                        for a in ce.args:
+                        for a in call.args:
                             r_ = a
                             while isinstance(r_, ast.Attribute):
                                 r_ = r_.value
                             roots.add(r_.id)
-                        body_stores = {n.id for b in st.body for n in ast.walk(b) if isinstance(n, ast.Name) and isinstance(n.ctx, (ast.Store, ast.Del))}
-                        if roots & body_stores:
+                        span = stmts[(ctor_at if ctor_at is not None else i):i + 1]
+                        span_stores = {n.id for b in span for n in ast.walk(b) if isinstance(n, ast.Name) and isinstance(n.ctx, (ast.Store, ast.Del))} - \
+                            ({ce.id} if isinstance(ce, ast.Name) else set()) - ({asv.id} if asv is not None else set())
+                        if roots & span_stores:
                             continue
-                        argof = dict(zip(params, ce.args))
-                        caller_locals = {n.id for n in ast.walk(fn) if isinstance(n, ast.Name) and isinstance(n.ctx, (ast.Store, ast.Del))} | set(_params(fn))
-                        xlocals = {n.id for b in xb for n in ast.walk(b) if isinstance(n, ast.Name) and isinstance(n.ctx, (ast.Store, ast.Del))}
-                        ren = {x: f"{x}__{c.name.strip('_')}" for x in xlocals if x in caller_locals}
+                        argof = dict(zip(d["params"], call.args))
+                        caller_names = {n.id for n in ast.walk(fn) if isinstance(n, ast.Name)} | set(_params(fn))
+                        tag = c.name.strip("_")
+                        # attribute locals; the attribute that __enter__ hands out lives in the `as` name
+                        local = {}
+                        er = d["enter_ret"]
+                        handed = er.attr if (asv is not None and isinstance(er, ast.Attribute) and isinstance(er.value, ast.Name) and er.value.id == d["enter_self"]) else None
+                        if handed is not None and sum(1 for n in ast.walk(fn) if isinstance(n, ast.Name) and n.id == asv.id and isinstance(n.ctx, (ast.Store, ast.Del))) != 1:
+                            handed = None
+                        clash = False
+                        for a_, _v in d["attrs"]:
+                            nm = asv.id if a_ == handed else f"{a_.strip('_')}__{tag}"
+                            if a_ != handed and nm in caller_names:
+                                clash = True
+                            local[a_] = nm
+                        if clash:
+                            continue
+                        body_locals = set()
+                        for part in (d["enter"], d["exit"]):
+                            for b in part:
+                                for n in ast.walk(b):
+                                    if isinstance(n, ast.Name) and isinstance(n.ctx, (ast.Store, ast.Del)):
+                                        body_locals.add(n.id)
+                        ren = {x: f"{x}__{tag}" for x in body_locals if x in caller_names}
 
-                        class S(ast.NodeTransformer):
-                            def visit_Attribute(self, node):
-                                if isinstance(node.value, ast.Name) and node.value.id == xself and node.attr in attrs:
-                                    return ast.copy_location(copy.deepcopy(argof[attrs[node.attr]]), node)
-                                self.generic_visit(node)
-                                return node
+                        def conv(node, me, with_params):
+                            class S(ast.NodeTransformer):
+                                def visit_Attribute(self, n):
+                                    if isinstance(n.value, ast.Name) and n.value.id == me and n.attr in local:
+                                        return ast.copy_location(ast.Name(local[n.attr], n.ctx), n)
+                                    self.generic_visit(n)
+                                    return n
 
-                            def visit_Name(self, node):
-                                if node.id in ren:
-                                    return ast.copy_location(ast.Name(ren[node.id], node.ctx), node)
-                                return node
-                        fin = [S().visit(copy.deepcopy(b)) for b in xb] or [ast.Pass()]
+                                def visit_Name(self, n):
+                                    if with_params and n.id in argof and isinstance(n.ctx, ast.Load):
+                                        return ast.copy_location(copy.deepcopy(argof[n.id]), n)
+                                    if not with_params and n.id in ren:
+                                        return ast.copy_location(ast.Name(ren[n.id], n.ctx), n)
+                                    return n
+                            return S().visit(copy.deepcopy(node))
+                        pre = []
+                        for a_, v in d["attrs"]:
+                            x = ast.Assign([ast.Name(local[a_], ast.Store())], conv(v, d["init_self"], True), lineno=st.lineno)
+                            pre.append(ast.copy_location(x, st))
+                        ent = [conv(b, d["enter_self"], False) for b in d["enter"]]
+                        if asv is not None and handed is None:
+                            ent.append(ast.copy_location(ast.Assign([ast.Name(asv.id, ast.Store())], conv(er, d["enter_self"], False), lineno=st.lineno), st))
+                        fin = [conv(b, d["exit_self"], False) for b in d["exit"]] or [ast.Pass()]
                         new = ast.copy_location(ast.Try(body=st.body, handlers=[], orelse=[], finalbody=fin), st)
-                        ast.fix_missing_locations(new)
-                        stmts[i] = new
+                        for x in pre + ent + [new]:
+                            ast.copy_location(x, st)
+                            ast.fix_missing_locations(x)
+                        if ctor_at is not None:
+                            stmts[i:i + 1] = ent + [new]
+                            stmts[ctor_at:ctor_at + 1] = pre
+                        else:
+                            stmts[i:i + 1] = pre + ent + [new]
                         rep.other.append(f"`with {c.name}(...)` in {scn + '.' if scn else ''}{fn.name} read as the try/finally it packages")
                         changed = True
                         break
@@ -1051,6 +1189,25 @@ def _never_none(e) -> bool:
     return False
 
 
+def _derefs(st, t: str) -> bool:
+    """the simple statement evaluates `t[...]` or `t.<attr>` unconditionally (not under and/or, a conditional expression, a comprehension
+    or a lambda) and does not assign t"""
+    if any(isinstance(n, ast.Name) and n.id == t and isinstance(n.ctx, (ast.Store, ast.Del)) for n in ast.walk(st)):
+        return False
+
+    def rec(n, cond):
+        if isinstance(n, (ast.Lambda, ast.ListComp, ast.SetComp, ast.DictComp, ast.GeneratorExp)):
+            return False
+        if isinstance(n, (ast.Subscript, ast.Attribute)) and isinstance(n.value, ast.Name) and n.value.id == t and isinstance(n.ctx, ast.Load) and not cond:
+            return True
+        if isinstance(n, ast.BoolOp):
+            return rec(n.values[0], cond) or any(rec(v, True) for v in n.values[1:])
+        if isinstance(n, ast.IfExp):
+            return rec(n.test, cond) or rec(n.body, True) or rec(n.orelse, True)
+        return any(rec(c, cond) for c in ast.iter_child_nodes(n))
+    return rec(st, False)
+
+
 def thread_none_sentinels(modules, known, rep):
     """A new `if t is None: A else: B` directly behind an `if` tree whose every fall-through leaf has just assigned `t` either
     `None` or a value that cannot be None (int(..), arithmetic, a display ...) only re-reads the branch that was taken: A / B
@@ -1089,10 +1246,16 @@ def thread_none_sentinels(modules, known, rep):
                         continue
                     state0 = None
                     k = i - 2
-                    while k >= 0 and isinstance(stmts[k], ast.Assign) and len(stmts[k].targets) == 1 and isinstance(stmts[k].targets[0], ast.Name):
-                        if stmts[k].targets[0].id == t:
-                            v = stmts[k].value
+                    while k >= 0 and isinstance(stmts[k], (ast.Assign, ast.Expr, ast.AugAssign, ast.AnnAssign)):
+                        sk = stmts[k]
+                        if isinstance(sk, ast.Assign) and len(sk.targets) == 1 and isinstance(sk.targets[0], ast.Name) and sk.targets[0].id == t:
+                            v = sk.value
                             state0 = "null" if isinstance(v, ast.Constant) and v.value is None else ("nonnull" if _never_none(v) else None)
+                            break
+                        if _derefs(sk, t):
+                            state0 = "nonnull"  # `t[...]` / `t.attr` was evaluated there: t is not None since
+                            break
+                        if any(isinstance(n, ast.Name) and n.id == t and isinstance(n.ctx, (ast.Store, ast.Del)) for n in ast.walk(sk)):
                             break
                         k -= 1
                     failed = False
